@@ -187,6 +187,12 @@ class AppCfgMgr:
                             instance_name)
             return
 
+        elif self._is_finished(event_file):
+            # The container of this manifest already ran (and is, or will be,
+            # handed to cleanup): same rule as in _synchronize.
+            _LOGGER.warning('Event on already finished %r', instance_name)
+            return
+
         elif self._configure(instance_name):
             self._refresh_supervisor()
 
@@ -240,6 +246,29 @@ class AppCfgMgr:
 
         running_link = os.path.join(self.tm_env.running_dir, instance_name)
         return self._linked_container(running_link) == container
+
+    def _has_cleanup_file(self, container):
+        """Check if a container finished, was aborted or ran out of memory.
+        """
+        data_dir = os.path.join(self.tm_env.apps_dir, container, 'data')
+        for cleanup_file in ['exitinfo', 'aborted', 'oom']:
+            path = os.path.join(data_dir, cleanup_file)
+            if os.path.exists(path):
+                _LOGGER.debug('Found cleanup file %r', path)
+                return True
+
+        return False
+
+    def _is_finished(self, event_file):
+        """Check if the container of an event file exists and has finished.
+        """
+        try:
+            container = appcfg.eventfile_unique_name(event_file)
+        except OSError:
+            # The event file is gone: nothing was configured from it.
+            return False
+
+        return self._has_cleanup_file(container)
 
     def _first_sync(self):
         """Bring the appcfgmgr into active mode and do a first sync.
@@ -321,14 +350,7 @@ class AppCfgMgr:
             else:
                 needs_cleanup = True
                 if is_current:
-                    data_dir = os.path.join(self.tm_env.apps_dir, container,
-                                            'data')
-                    for cleanup_file in ['exitinfo', 'aborted', 'oom']:
-                        path = os.path.join(data_dir, cleanup_file)
-                        if os.path.exists(path):
-                            _LOGGER.debug('Found cleanup file %r', path)
-                            break
-                    else:
+                    if not self._has_cleanup_file(container):
                         if self._configure(appname):
                             needs_cleanup = False
                             _LOGGER.debug('Added existing app %r', appname)
